@@ -241,3 +241,9 @@ N("idiom-checked_log-ok-question", ["C13"],
 N("idiom-set_bit-nested-branch", ["C04", "C06"],
   [("src/bits.rs", "        if index >= BITS {\n            return;\n        }\n        let (limbs, bits) = (index / 64, index % 64);\n        if value {\n            self.limbs[limbs] |= 1 << bits;\n        } else {\n            self.limbs[limbs] &= !(1 << bits);\n        }",
     "        if index < BITS {\n            let (limbs, bits) = (index / 64, index % 64);\n            if value {\n                self.limbs[limbs] |= 1 << bits;\n            } else {\n                self.limbs[limbs] &= !(1 << bits);\n            }\n        }")])
+B("signed-negative-includes-zero", ["C07"],
+  [("src/from.rs", "                if value.is_negative() {\n                    Err(match Self::try_from(value as $uint) {", "                if value <= 0 {\n                    Err(match Self::try_from(value as $uint) {")],
+  "negative")
+N("idiom-signed-ge-zero-early-return", ["C07"],
+  [("src/from.rs", "                if value.is_negative() {\n                    Err(match Self::try_from(value as $uint) {\n                        Ok(n) | Err(ToUintError::ValueTooLarge(_, n)) => {\n                            ToUintError::ValueNegative(BITS, n)\n                        }\n                        _ => unreachable!(),\n                    })\n                } else {\n                    Self::try_from(value as $uint)\n                }",
+    "                let unsigned = Self::try_from(value as $uint);\n                if value >= 0 {\n                    return unsigned;\n                }\n                match unsigned {\n                    Ok(n) | Err(ToUintError::ValueTooLarge(_, n)) => {\n                        Err(ToUintError::ValueNegative(BITS, n))\n                    }\n                    _ => unreachable!(),\n                }")])
